@@ -934,12 +934,22 @@ class Interp(object):
             if isinstance(args[0], Adt) and args[0].vname == "Err":
                 return args[0]
             raise Undecided("from_residual of an unknown residual")
+        if c == "<core::option::Option<T> as core::ops::Try>::branch":
+            r = args[0]
+            if isinstance(r, Adt) and r.vname == "Some":
+                return Adt("core::ops::ControlFlow", 0, "Continue", [r.fields[0]])
+            if isinstance(r, Adt) and r.vname == "None":
+                return Adt("core::ops::ControlFlow", 1, "Break", [Adt("core::option::Option", 0, "None", [])])
+            raise Undecided("`?` on an unknown option")
+        if c.endswith("FromResidual<core::option::Option<core::convert::Infallible>>>::from_residual"):
+            return Adt("core::option::Option", 0, "None", [])
         if c == "core::slice::<impl [T]>::len":
             return self.slice_len(args[0])
-        if c in ("core::slice::<impl [T]>::iter", "core::slice::<impl [T]>::iter_mut"):
+        if c in ("core::slice::<impl [T]>::iter", "core::slice::<impl [T]>::iter_mut", "core::slice::iter::<impl core::iter::IntoIterator for &[T]>::into_iter",
+                 "core::slice::iter::<impl core::iter::IntoIterator for &mut [T]>::into_iter"):
             a = args[0]
             if isinstance(a, Ref) and a.loc[0] == "slice":
-                return It(a.loc[1], a.loc[2], short == "iter_mut")
+                return It(a.loc[1], a.loc[2], short == "iter_mut" or "&mut [T]" in c)
             raise Undecided("iterator over something that is not the buffer")
         if c == "core::iter::Iterator::skip" and isinstance(args[0], It):
             it = args[0].clone()
